@@ -729,6 +729,56 @@ def env_prefilter(repo):
     return env_allow_list(raw, m.group(2))
 
 
+SEG_BY_FIELD = {'preprocessor_args': 'SPre', 'arch_args': 'SArch', 'common_args': 'SCommon'}
+EXPECTED_FLOW_C = ['SCommon', 'SArch', 'SProfile']
+EXPECTED_FLOW_P = ['SPre', 'SArch', 'SCommon', 'SProfile', 'SCwd']
+
+
+def arg_flow(repo):
+    """Which argument lists of the parsed request `generate_hash_key` (c.rs) concatenates, in which order, into the
+    `arguments` of hash_key (-> flow_c) and of preprocessor_cache_entry_hash_key (-> flow_p).  A segment that is not a
+    field of `parsed_args` taken as it is (order and multiplicity kept) comes out as 'SOther'."""
+    raw = read(repo, 'src/compiler/c.rs')
+    txt = norm(item_at(raw, r'^    async\s+fn\s+generate_hash_key\s*\(', 'fn generate_hash_key'))
+    flows = {}
+    for fn, key in (('hash_key', 'flow_c'), ('preprocessor_cache_entry_hash_key', 'flow_p')):
+        calls = re.findall(r'(?<![A-Za-z0-9_])%s\(((?:[^()]|\((?:[^()]|\([^()]*\))*\))*)\)' % fn, txt)
+        if len(calls) != 1:
+            raise Unrecognised('generate_hash_key: %s called %d times' % (fn, len(calls)))
+        a = split_top(calls[0], ',')
+        m = re.fullmatch(r'&(%s)' % ID, a[2]) if len(a) > 2 else None
+        if not m:
+            raise Unrecognised('generate_hash_key: third argument of %s is %r' % (fn, a[2:3]))
+        v = m.group(1)
+        segs = []
+        init = re.findall(r'let mut %s=([^;]*);' % v, txt)
+        if len(init) != 1:
+            raise Unrecognised('generate_hash_key: %s is not initialised exactly once' % v)
+        mi = re.fullmatch(r'parsed_args\.(%s)\.clone\(\)' % ID, init[0])
+        segs.append(SEG_BY_FIELD.get(mi.group(1), 'SOther') if mi else 'SOther')
+        # every later statement that touches the list
+        for use in re.finditer(r'(?<![A-Za-z0-9_&])%s\.(%s)\(((?:[^()]|\((?:[^()]|\([^()]*\))*\))*)\)' % (v, ID), txt):
+            meth, arg = use.group(1), use.group(2)
+            if meth == 'extend':
+                mf = re.fullmatch(r'parsed_args\.(%s)\.(?:to_vec|clone)\(\)' % ID, arg)
+                if mf:
+                    segs.append(SEG_BY_FIELD.get(mf.group(1), 'SOther'))
+                elif re.fullmatch(r'profile_output_path(\.clone\(\))?', arg):
+                    segs.append('SProfile')
+                else:
+                    segs.append('SOther')
+            elif meth == 'push' and arg == 'cwd.clone().into_os_string()':
+                pre = txt[:use.start()]
+                if pre.endswith('if storage.preprocessor_cache_mode_config().hash_working_directory{'):
+                    segs.append('SCwd')
+                else:
+                    segs.append('SOther')
+            else:
+                segs.append('SOther')       # sort, dedup, retain, insert, ...: not a plain concatenation any more
+        flows[key] = segs
+    return flows
+
+
 EXPECTED_ENV = [('EName', 'LP'), ('ELit', b'='), ('EVal', 'LP')]
 EXPECTED_SHAPE_C = [('CDigest',), ('CPlusplus',), ('CVersion',), ('CLang',), ('CArgs', 'LP'), ('CExtra',),
                     ('CEnv', EXPECTED_ENV), ('CPP',)]
@@ -784,6 +834,11 @@ def read_spec(repo, fallback=None):
     if fallback.get('drivers') is not None and fallback.get('script_ids') is not None:
         spec['script_ids'] = fallback['script_ids']
     item('drivers', drivers, fallback.get('drivers'))
+    try:
+        spec.update(arg_flow(repo))
+    except Unrecognised as e:
+        errors.append('arg_flow: %s' % e)
+        spec['flow_c'], spec['flow_p'] = ['SOther'], ['SOther']
     try:
         spec['env_prefilter'] = env_prefilter(repo)
     except Unrecognised as e:
@@ -855,6 +910,9 @@ def emit(spec, gen_dir):
     txt += 'Definition the_drivers : list (bytes * bytes * bool) := [\n' + ';\n'.join(
         '  (* %s => %s *) (%s, %s, %s)' % (k, n, coq_bytes(k.encode()), coq_bytes(n.encode()), 'true' if pp else 'false')
         for k, n, pp, _ in spec['drivers']) + '\n].\n'
+    txt += '\n(* c.rs generate_hash_key: the argument lists of the parsed request that make up the hashed `arguments` *)\n'
+    txt += 'Definition the_flow_c : list seg := [%s].\n' % '; '.join(spec['flow_c'])
+    txt += 'Definition the_flow_p : list seg := [%s].\n' % '; '.join(spec['flow_p'])
     txt += '\n(* c.rs generate_hash_key: the list the client environment is filtered by BEFORE it reaches the key functions *)\n'
     pf = spec.get('env_prefilter')
     txt += 'Definition the_env_prefilter : option (list bytes) := %s.\n' % (
@@ -895,6 +953,12 @@ Proof. vm_compute; reflexivity. Qed.
 
 (* whatever generate_hash_key filters the environment by beforehand keeps every variable of both allow-lists *)
 Lemma the_prefilter_ok : prefilter_ok the_env_prefilter the_spec = true.
+Proof. vm_compute; reflexivity. Qed.
+
+(* the hashed argument lists are plain concatenations of the parsed request's lists (order and multiplicity kept) *)
+Lemma the_flow_c_ok : the_flow_c = expected_flow_c.
+Proof. vm_compute; reflexivity. Qed.
+Lemma the_flow_p_ok : the_flow_p = expected_flow_p.
 Proof. vm_compute; reflexivity. Qed.
 
 Lemma the_spec_good : spec_good the_spec.
